@@ -51,6 +51,9 @@ type c16World struct {
 func newC16World(r *core.RNG) *c16World {
 	w := &c16World{devs: map[[8]byte]*c16Dev{}, keks: map[string][]byte{}}
 	r.Fill(w.netID[:])
+	if r.Chance(1, 5) {
+		w.netID = [][3]byte{{0, 0, 0}, {0, 0, 1}, {0, 0, 0x13}, {0x60, 0, 0}, {0xff, 0xff, 0xff}}[r.Intn(5)] // experimental / well-known / typed NetIDs
+	}
 	nsLabel := hex.EncodeToString(w.netID[:])
 	switch r.Intn(4) { // identifiers are hex text; a peer may write it in upper case or with 0x
 	case 0:
